@@ -156,6 +156,19 @@ def show_dfs(rounds):
                       for st, vis, edges, tokens in rounds)
 
 
+def real_positions(text):
+    """what the real reader makes of the text, positionally: number of atoms and the bonds as sorted pairs of atom indices in
+    reading order (the observable the positional reader model `readL` of the round-5 text theorem is compared with)"""
+    from chython import smiles
+    try:
+        r = smiles(text)
+        idx = {n: i for i, n in enumerate(r._atoms)}
+        pairs = sorted({(min(idx[x], idx[y]), max(idx[x], idx[y])) for x, y, _ in r.bonds()})
+    except Exception:  # noqa  (the judge reports reader failures)
+        return None
+    return 'ok %d;%s' % (len(idx), ','.join('%d-%d' % p for p in pairs))
+
+
 def components_in_order(mol, order):
     comp_of = {}
     for i, c in enumerate(mol.connected_components):
@@ -1124,7 +1137,7 @@ def generate(ctx):
 
 
 def correspond(ctx):
-    ctx.cov['programs'] = 7  # Smiles._smiles DFS locals ; format(mol, spec) ; smiles_atoms_order (also read first) ; str(mol) ; smiles(text) ; Smiles._smiles token list ; heap allocator
+    ctx.cov['programs'] = 7  # Smiles._smiles DFS locals ; smiles(text) atoms+bonds by position ; format(mol, spec) ; smiles_atoms_order (also read first) ; str(mol) ; smiles(text) ; Smiles._smiles token list ; heap allocator
     mols = molecules(ctx)
     reqs, expect, meta = [], [], []
     n_specs = 5 if ctx.quick else 9
@@ -1198,6 +1211,14 @@ def correspond(ctx):
                         reqs.append(request('D', m, spec, order, draws))
                         expect.append('ok ' + show_dfs(trace))
                         meta.append(('D', name, tag, spec, seed, m))
+                    if line.startswith('ok') and _state.get('pos_read', 0) < (2500 if ctx.quick else 20000) \
+                            and not ('m' in spec and max(m._atoms) > 9999):
+                        want_pos = real_positions(text)
+                        if want_pos is not None:   # text -> lexer model -> positional reader model vs the real reader's atoms and bonds
+                            _state['pos_read'] = _state.get('pos_read', 0) + 1
+                            reqs.append(request('L', m, spec, order, draws))
+                            expect.append(want_pos)
+                            meta.append(('L', name, tag, spec, seed, m))
                     if (spec in ('', 'a', 'r') or (st and '!s' not in spec)) and line.startswith('ok'):
                         reqs.append(request('C', m, spec, order, draws))
                         expect.append(None)
@@ -1256,6 +1277,17 @@ def correspond(ctx):
                     ctx.cov['disagreements_checked'] += 1
                     ctx.broke('correspondence', 'writer-text', f'{name}/{tag} [{spec!r}] seed={seed}\n real : {want}\n model: {got}')
                     _state.setdefault('disagree', []).append((m, spec, seed, name))
+            elif op == 'L':
+                ctx.count(('L', spec, tuple(wire.mol_to_ints(m)), seed), m.bonds_count > 0)
+                if got != want:
+                    if got == 'ok lex-error' and any(a.atomic_number in (9, 17, 35, 53) and a.hybridization == 4 for a in m._atoms.values()):
+                        ctx.dist('positional-read:aromatic-halogen(lexical finding of the model, valence-invalid input)')
+                    else:
+                        ctx.cov['disagreements_checked'] += 1
+                        ctx.broke('correspondence', 'positional-read', f'{name}/{tag} [{spec!r}] seed={seed}\n real : {want[:400]}\n model: {got[:400]}')
+                        _state.setdefault('disagree', []).append((m, spec, seed, name))
+                else:
+                    ctx.dist('positional-read:agree')
             elif op == 'D':
                 ctx.count(('D', spec, tuple(wire.mol_to_ints(m)), seed), m.bonds_count > 0)
                 ctx.dist('dfs-internals:rounds=%s,closures=%s' % (min(want.count(' / ') + 1, 3), 'yes' if '-' in want else 'no'))
